@@ -6,6 +6,8 @@ and compared (multisets of statements, column lists in order, each clause presen
 """
 from __future__ import annotations
 
+from hypothesis import strategies as st
+
 from .. import gen, model
 from ..core import Ctx, Viol, hyp_run, thash
 from ..sqlcheck import check_c03
@@ -59,12 +61,25 @@ def check_db(s, db, case):
     return [Viol(f'c03:{key}', msg, case, size=len(sql)) for key, msg in check_c03(s, p)], sql
 
 
-def evaluate(s, style, ctx: Ctx = None, gen_name='?'):
+def evaluate(s, style, ctx: Ctx = None, gen_name='?', script=()):
     viols = []
     for how, db, text in C.databases(s, style, ctx):
         case = dict(schema=model.to_json(s), how=how, text=text, gen=gen_name)
         vs, sql = check_db(s, db, case)
         viols += vs
+        if script and not vs:
+            # second phase: the database just rendered is edited in place and rendered again
+            try:
+                s2 = C.edited(s, db, script)
+            except Exception as e:  # noqa
+                s2 = None
+                viols.append(Viol(f'c03:edit-raised:{type(e).__name__}', f'in-place edit raised {type(e).__name__}: {e}', dict(case, script=[list(x) for x in script])))
+            if s2 is not None:
+                case2 = dict(case, script=[list(x) for x in script], phase='edited')
+                vs2, _ = check_db(s2, db, case2)
+                viols += [Viol(v.bucket + ':after-edit', 'after render, in-place edits and a second render: ' + v.message, case2, size=v.size) for v in vs2]
+                if ctx is not None:
+                    ctx.record(thash('edited' + how + model.to_json(s2).__repr__()), nontrivial(s2), ['phase:edited', f'how:{how}'])
         if ctx is not None:
             nt = nontrivial(s)
             sample = dict(construction=how, sql=sql) if nt and sql and len(sql) < 800 and len(ctx.samples) < ctx.MAX_SAMPLES else None
@@ -80,14 +95,19 @@ def replay(case):
         db = PyDBML.parse(case['text'], allow_properties=True) if s.allow_properties else PyDBML.parse(case['text'])
     else:
         db = build(s)
-    return check_db(s, db, {k: v for k, v in case.items() if k != 'sql'})[0]
+    base = {k: v for k, v in case.items() if k != 'sql'}
+    if case.get('phase') == 'edited':
+        db.sql
+        s2 = C.edited(s, db, [tuple(x) for x in case['script']])
+        return check_db(s2, db, base)[0]
+    return check_db(s, db, base)[0]
 
 
 def shard(ctx: Ctx):
     quick = ctx.tier == 'quick'
     sizes = gen.QUICK if quick else gen.THOROUGH
     n = 120 if quick else 1200
-    hyp_run(ctx, 'parsed+built', C.cases(C.parse_features(), sizes, min_tables=1),
-            lambda c: evaluate(c[0], c[1], ctx, 'parse-domain'), n)
+    hyp_run(ctx, 'parsed+built', st.tuples(C.cases(C.parse_features(), sizes, min_tables=1), C.edit_scripts()),
+            lambda c: evaluate(c[0][0], c[0][1], ctx, 'parse-domain', c[1]), n)
     hyp_run(ctx, 'built-only', C.cases(C.built_features(), sizes, with_style=False, min_tables=1),
             lambda c: evaluate(c[0], None, ctx, 'api-domain'), n)
